@@ -441,11 +441,16 @@ def _main(prop, tier, seed, scen_name, scratch, t0, only):
                         break
                 if len(rec['obs']) != len(r['obs']):
                     problems.append("observation count differs")
+        cfail = [o for o in r.get('obls', []) if not o['ok'] and o['key'] not in sym_sat
+                 and not o['label'].startswith('canary')]
+        if cfail:
+            return ('concrete-failure', cfail)
         if problems:
             return 'diverged' if nondet else '; '.join(problems)[:800]
         return None
 
     pending = []
+    wit_violations = []
     for tid, (ji, rec) in wit_index.items():
         v = compare(ji, rec, cres.get(tid))
         if v == 'skip':
@@ -465,6 +470,17 @@ def _main(prop, tier, seed, scen_name, scratch, t0, only):
         r2 = _run_concrete([by_id[tid] for tid, _, _, _ in pending], sub, True)
         for tid, ji, rec, v in pending:
             v2 = compare(ji, rec, r2.get(tid))
+            if isinstance(v2, tuple) and isinstance(v, tuple):
+                # an obligation fails on the real code for this witness on both builds: a counter-
+                # example found by witness validation (the symbolic phase proved it, so a proxy or
+                # stub is also wrong for this code, but the concrete failure stands on its own)
+                for o in v2[1][:3]:
+                    wit_violations.append((o['key'], ji, rec, o))
+                continue
+            if isinstance(v, tuple):
+                v = 'concrete check %s fails on the C build only' % v[1][0]['key']
+            if isinstance(v2, tuple):
+                v2 = 'concrete check fails on the python build only'
             if v2 is None:
                 CRASH_STATS['c_dependency_divergences'] = CRASH_STATS.get('c_dependency_divergences', 0) + 1
                 n_valid += 1
@@ -547,6 +563,25 @@ def _main(prop, tier, seed, scen_name, scratch, t0, only):
             json.dump(task, f, indent=1, default=str)
         violations.append((key, path))
 
+    seen_keys = {k for k, _ in violations}
+    for key, ji, rec, o in wit_violations:
+        if key in seen_keys:
+            continue
+        seen_keys.add(key)
+        e = match_known(known, prop, key)
+        if e is not None:
+            known_hits.setdefault(e['key'], [e, 0, key])
+            known_hits[e['key']][1] += 1
+            continue
+        task = {'property': prop, 'key': key, 'label': o['label'], 'scen': scen_name, 'fn': jobs[ji]['fn'],
+                'cfg': jobs[ji]['cfg'], 'model': rec.get('model'), 'choices': rec.get('choices'),
+                'opts': jobs[ji].get('opts'), 'info': o.get('info'),
+                'found_by': 'witness validation (concrete run of a path witness on the real build)'}
+        h = hashlib.sha1(json.dumps([key, task['fn'], task['cfg'], task['model']], sort_keys=True).encode()).hexdigest()[:10]
+        path = os.path.join(repdir, '%s-%s.json' % (prop, h))
+        with open(path, 'w') as f:
+            json.dump(task, f, indent=1, default=str)
+        violations.append((key, path))
     inconclusive = bool(n_unknown or n_crash or n_harness or n_budget or n_skipped)
     if n_skipped:
         harness_msgs.append('%d jobs skipped: global time budget exhausted' % n_skipped)
